@@ -17,7 +17,7 @@ LEVEL = "exploration"
 DECIDING = ["runs", "fs_events"]
 MIN_DECIDED_RATIO = 0.9
 RULE = (
-    "histories of runs; step = (group g1|g1_b, new|reused instance, clock same|+1s|to-13:00|to-00:00:01, method drawn so that adjacent "
+    "histories of runs; step = (group g1|g1_b, new|reused instance, clock same|+1s|to-13:00|to-00:00:01|to-Dec-31-23:59:58, method drawn so that adjacent "
     "method pairs vary). quick: all histories of length 3 (first step canonical: new instance), thorough: all of length 4 plus random "
     "histories of length 5-10. Non-trivial: length >= 2; distinct = distinct (step tuples incl. methods)."
 )
@@ -28,7 +28,7 @@ ASSUMPTIONS = [
 
 GROUPS = ["g1", "g1_b"]  # (one name is a prefix of the other: archive/g1 and archive/g1_b)
 INST = ["new", "reused"]
-CLOCK = ["same", "+1s", "to13", "to00"]
+CLOCK = ["same", "+1s", "to13", "to00", "toNYE"]
 START = _dt.datetime(2025, 3, 10, 7, 30, 0, tzinfo=_dt.timezone.utc)
 
 _NOW = {"t": START}
@@ -67,6 +67,12 @@ def advance(t, step):
         if n <= t:
             n += _dt.timedelta(days=1)
         return n
+    if step == "toNYE":
+        # on to the last second but one of the year (the days around New Year belong to another ISO week-year)
+        n = t.replace(month=12, day=31, hour=23, minute=59, second=58)
+        if n <= t:
+            n = n.replace(year=n.year + 1)
+        return n
     n = t.replace(hour=0, minute=0, second=1) + _dt.timedelta(days=1)
     return n
 
@@ -75,7 +81,7 @@ def histories(tier, seed):
     from vfy import cps
 
     steps = list(itertools.product(GROUPS, INST, CLOCK))
-    first = [(g, "new", c) for g in GROUPS for c in ("same", "to13", "to00")]
+    first = [(g, "new", c) for g in GROUPS for c in ("same", "to13", "to00", "toNYE")]
     L = 3 if tier == "quick" else 4
     k = 0
     for f in first:
@@ -160,7 +166,7 @@ def run_history(h, agg):
                 w["start_times"] = [str(r_["time"]) for r_ in by_name]
                 return "directory-names-not-chronological", w
         # ---- :last / :first
-        for prefix in ("2025-03-", t.strftime("%Y-%m-%d_")):
+        for prefix in ("2025-03-", "20", t.strftime("%Y-%m-%d_")):
             cands = [r_ for r_ in mine if r_["dir"].startswith(prefix)]
             if not cands:
                 continue
